@@ -226,15 +226,13 @@ def iter_clauses(view_of, with_key=False):
     return on_yield, post
 
 
-def items_refused_clauses():
-    """with_key iteration of a stage without items: raises _ItemsNotDefined before yielding."""
-    def on_yield(S, value):
-        return [('I-items:no-yield-when-undefined', smt.F)]
+def items_refused_clauses(view_of):
+    """with_key iteration of a stage without items: it refuses loudly (ends with an
+    exception, never normally); every pair yielded before that is correctly paired."""
+    on_yield, _ = iter_clauses(view_of, True)
 
     def post(S, o):
-        if o.kind == 'raise':
-            return [('I-items:refused-loudly', z3.And(S.out_n == 0, exc_is(o.exc, S.eng.hier, '_ItemsNotDefined')))]
-        return [('I-items:refused-loudly', smt.F)]
+        return [('I-items:refused-loudly', z3.BoolVal(o.kind == 'raise'))]
     return on_yield, post
 
 
